@@ -127,6 +127,29 @@ partial def varToJson : Var → Json
 def clauseToJson (cl : Clause) : Json :=
   jarr (fun (l : Lit) => Json.arr #[Json.bool l.pos, varToJson l.v]) cl
 
+def getOrdE (j : Json) : List (String × String) → List (String × String) :=
+  match j.getObjVal? "seed" with
+  | .ok v => (match v.getNat? with | .ok n => ordEdgesBy n | .error _ => id)
+  | .error _ => id
+
+def optCircuit (j : Json) (k : String) : Except String (Option Circuit) :=
+  match j.getObjVal? k with
+  | .ok v => if v.isNull then pure none else do pure (some (← circuitOfJson v))
+  | .error _ => pure none
+
+def optStrList (j : Json) (k : String) : Except String (Option (List String)) :=
+  match j.getObjVal? k with
+  | .ok v => if v.isNull then pure none else do pure (some (← getStrList v))
+  | .error _ => pure none
+
+def pairsOfJson (j : Json) : Except String (List (String × String)) := do
+  (← j.getArr?).toList.mapM (fun x => do
+    let p ← x.getArr?
+    pure ((← p[0]!.getStr?), (← p[1]!.getStr?)))
+
+def jpairs (l : List (String × String)) : Json :=
+  jarr (fun (p : String × String) => Json.arr #[jstr p.1, jstr p.2]) l
+
 def respond (o : Outcome) (extra : List (String × Json)) : Json :=
   Json.mkObj (("outcome", jstr o.toString) :: extra)
 
@@ -174,6 +197,46 @@ def handle (j : Json) : Except String Json := do
       pure (respond .ok [("clauses", jarr clauseToJson f), ("pool", jarr varToJson (dedupVars calls))])
     | .error e, _ => pure (respond e [])
     | _, .error e => pure (respond e [])
+  | "limit_fanin" =>
+    let c ← circuitOfJson (← j.getObjVal? "c")
+    match Tx.limitFanin c (← (← j.getObjVal? "k").getNat?) ord with
+    | .ok r => pure (respond .ok [("c", circuitToJson r)])
+    | .error e => pure (respond e [])
+  | "limit_fanout" =>
+    let c ← circuitOfJson (← j.getObjVal? "c")
+    match Tx.limitFanout c (← (← j.getObjVal? "k").getNat?) ord with
+    | .ok r => pure (respond .ok [("c", circuitToJson r)])
+    | .error e => pure (respond e [])
+  | "miter" =>
+    let c0 ← circuitOfJson (← j.getObjVal? "c0")
+    match Tx.miter c0 (← optCircuit j "c1") (← optStrList j "startpoints") (← optStrList j "endpoints") ord with
+    | .ok r => pure (respond .ok [("c", circuitToJson r)])
+    | .error e => pure (respond e [])
+  | "ternary" =>
+    let c ← circuitOfJson (← j.getObjVal? "c")
+    match Tx.ternary c ord with
+    | .ok (r, m) => pure (respond .ok [("c", circuitToJson r), ("mapping", jpairs m)])
+    | .error e => pure (respond e [])
+  | "unroll" =>
+    let c ← circuitOfJson (← j.getObjVal? "c")
+    match Tx.unroll c (← (← j.getObjVal? "n").getNat?) (← pairsOfJson (← j.getObjVal? "state_io"))
+        (← (← j.getObjVal? "prefix").getStr?) ord with
+    | .ok (r, m) => pure (respond .ok [("c", circuitToJson r),
+        ("io_map", jarr (fun (p : String × List String) => Json.arr #[jstr p.1, jarr jstr p.2]) m)])
+    | .error e => pure (respond e [])
+  | "subcircuit" =>
+    let c ← circuitOfJson (← j.getObjVal? "c")
+    match Tx.subcircuit c (getStrListD j "nodes") (getBoolD j "modify_io" false) (getOrdE j) with
+    | .ok r => pure (respond .ok [("c", circuitToJson r)])
+    | .error e => pure (respond e [])
+  | "strip_blackboxes" =>
+    let c ← circuitOfJson (← j.getObjVal? "c")
+    match Tx.stripBlackboxes c (getStrListD j "ignore_pins") ord with
+    | .ok r => pure (respond .ok [("c", circuitToJson r)])
+    | .error e => pure (respond e [])
+  | "strip_io" => pure (respond .ok [("c", circuitToJson (Tx.stripIO (← circuitOfJson (← j.getObjVal? "c"))))])
+  | "strip_inputs" => pure (respond .ok [("c", circuitToJson (Tx.stripInputs (← circuitOfJson (← j.getObjVal? "c"))))])
+  | "strip_outputs" => pure (respond .ok [("c", circuitToJson (Tx.stripOutputs (← circuitOfJson (← j.getObjVal? "c"))))])
   | "ord" =>
     pure (respond .ok [("r", jarr jstr (ord (getStrListD j "l")))])
   | _ => throw s!"unknown op {op}"
